@@ -2109,8 +2109,13 @@ class StridedInterval:
         if tok == self.bits:
             return self.copy()
 
-        # the interval can be represented in tok bits
-        if (self.lower_bound & mask) == self.lower_bound and (self.upper_bound & mask) == self.upper_bound:
+        # the interval can be represented in tok bits (it must not wrap around: a wrapped interval whose bounds
+        # are both small still contains values above the mask)
+        if (
+            self.lower_bound <= self.upper_bound
+            and (self.lower_bound & mask) == self.lower_bound
+            and (self.upper_bound & mask) == self.upper_bound
+        ):
             return StridedInterval(
                 bits=tok,
                 stride=self.stride,
@@ -2128,8 +2133,13 @@ class StridedInterval:
                 bits=tok, stride=self.stride, lower_bound=lower, upper_bound=upper, uninitialized=self.uninitialized
             )
 
-        if (self.upper_bound & mask == self.lower_bound & mask) and ((self.upper_bound - self.lower_bound) & mask == 0):
-            # This operation doesn't affect the stride. Stride should be 0 then.
+        if (
+            self.stride & mask == 0
+            and (self.upper_bound & mask == self.lower_bound & mask)
+            and ((self.upper_bound - self.lower_bound) & mask == 0)
+        ):
+            # Every member has the same low bits as the lower bound (the stride is a multiple of 2**tok), so the
+            # result is that single value. Stride should be 0 then.
 
             bound = self.lower_bound & mask
 
@@ -2167,8 +2177,13 @@ class StridedInterval:
         if tok == self.bits:
             return self.copy()
 
-        # the interval can be represented in tok bits
-        if (self.lower_bound & mask) == self.lower_bound and (self.upper_bound & mask) == self.upper_bound:
+        # the interval can be represented in tok bits (it must not wrap around: a wrapped interval whose bounds
+        # are both small still contains values above the mask)
+        if (
+            self.lower_bound <= self.upper_bound
+            and (self.lower_bound & mask) == self.lower_bound
+            and (self.upper_bound & mask) == self.upper_bound
+        ):
             return StridedInterval(
                 bits=tok,
                 stride=self.stride,
@@ -2179,7 +2194,7 @@ class StridedInterval:
 
         # the range between lower bound and upper bound can be represented
         # in the new SI
-        if self.upper_bound - self.lower_bound <= mask:
+        if 0 <= (self.upper_bound - self.lower_bound) <= mask:
             lower = self.lower_bound & mask
             upper = self.upper_bound & mask
             # Keep the signs!
@@ -2195,8 +2210,13 @@ class StridedInterval:
                 bits=tok, stride=self.stride, lower_bound=lower, upper_bound=upper, uninitialized=self.uninitialized
             )
 
-        if (self.upper_bound & mask == self.lower_bound & mask) and ((self.upper_bound - self.lower_bound) & mask == 0):
-            # This operation doesn't affect the stride. Stride should be 0 then.
+        if (
+            self.stride & mask == 0
+            and (self.upper_bound & mask == self.lower_bound & mask)
+            and ((self.upper_bound - self.lower_bound) & mask == 0)
+        ):
+            # Every member has the same low bits as the lower bound (the stride is a multiple of 2**tok), so the
+            # result is that single value. Stride should be 0 then.
 
             bound = self.lower_bound & mask
 
